@@ -40,8 +40,8 @@ Section Packing.
   (* one row written into the packed matrices *)
   Lemma step_cells (c0 cd0 : mat T) (r : row T) (n m : nat) :
     (rm r <= rn r)%nat -> (m <= n)%nat ->
-    let c1 := fst (load_step OP (c0, cd0) r) in
-    let cd1 := snd (load_step OP (c0, cd0) r) in
+    let c1 := fst (load_step (c0, cd0) r) in
+    let cd1 := snd (load_step (c0, cd0) r) in
     if is_key n m r then
       c1 m n = rg r /\ cd1 m n = rgd r /\ ((1 <= m)%nat -> c1 n (m - 1)%nat = rh r /\ cd1 n (m - 1)%nat = rhd r)
     else
@@ -54,8 +54,8 @@ Section Packing.
   Qed.
 
   Lemma load_cells rows : forall (c0 cd0 : mat T), wf rows -> forall n m, (m <= n)%nat ->
-    let c := fst (fold_left (load_step OP) rows (c0, cd0)) in
-    let cd := snd (fold_left (load_step OP) rows (c0, cd0)) in
+    let c := fst (fold_left (load_step) rows (c0, cd0)) in
+    let cd := snd (fold_left (load_step) rows (c0, cd0)) in
     c m n = match lookup rows n m with Some r => rg r | None => c0 m n end /\
     cd m n = match lookup rows n m with Some r => rgd r | None => cd0 m n end /\
     ((1 <= m)%nat -> c n (m - 1)%nat = match lookup rows n m with Some r => rh r | None => c0 n (m - 1)%nat end /\
@@ -66,7 +66,7 @@ Section Packing.
     - cbn [fold_left].
       inversion Hnd as [|k ks Hnotin Hnd']; subst. inversion Hle as [|r' rs' Hr Hle']; subst.
       pose proof (step_cells c0 cd0 r n m Hr Hm) as Hs. cbn zeta in Hs.
-      destruct (load_step OP (c0, cd0) r) as [c1 cd1] eqn:E1. cbn [fst snd] in Hs.
+      destruct (load_step (c0, cd0) r) as [c1 cd1] eqn:E1. cbn [fst snd] in Hs.
       specialize (IH c1 cd1 (conj Hnd' Hle') n m Hm). cbn zeta in IH. cbn zeta.
       unfold lookup in *. cbn [find].
       destruct (is_key n m r) eqn:Ek.
@@ -142,8 +142,8 @@ Section Tables.
     nth 0 (leg_upto OP s c N) [] = fst (leg2 OP s c N) /\ nth 1 (leg_upto OP s c N) [] = snd (leg2 OP s c N).
   Proof.
     induction N as [|k [I0 I1]]; [split; reflexivity|].
-    cbn [leg_upto leg2]. cbn zeta. rewrite I0, I1. destruct (leg2 OP s c k) as [a b]. cbn [fst snd nth].
-    split; [reflexivity|]. rewrite <- I0. reflexivity.
+    cbn [leg_upto]. cbn zeta. cbn [nth]. rewrite I0, I1. cbn [leg2].
+    destruct (leg2 OP s c k) as [a b]. cbn [fst snd]. split; reflexivity.
   Qed.
   Lemma leg_upto_nth N : forall n, (n <= N)%nat -> nth (N - n) (leg_upto OP s c N) [] = legrow OP s c n.
   Proof.
@@ -170,9 +170,9 @@ Qed.
 (* folds are sums                                                                               *)
 (* ------------------------------------------------------------------------------------------ *)
 Lemma fold_add l f : forall a, fold_left (fun acc i => acc + f i) l a = a + Rsum l f.
-Proof. induction l as [|x l IH]; intros a; cbn [fold_left Rsum fold_right]; [ring|rewrite IH; ring]. Qed.
+Proof. unfold Rsum. induction l as [|x l IH]; intros a; cbn [fold_left fold_right]; [ring|rewrite IH; ring]. Qed.
 Lemma fold_sub l f : forall a, fold_left (fun acc i => acc - f i) l a = a - Rsum l f.
-Proof. induction l as [|x l IH]; intros a; cbn [fold_left Rsum fold_right]; [ring|rewrite IH; ring]. Qed.
+Proof. unfold Rsum. induction l as [|x l IH]; intros a; cbn [fold_left fold_right]; [ring|rewrite IH; ring]. Qed.
 Lemma fsum_R l f : fsum OpsR l f = Rsum l f.
 Proof. unfold fsum. cbn [oadd o0 OpsR]. rewrite fold_add. ring. Qed.
 Lemma opow_R x k : opow OpsR x k = x ^ k.
@@ -194,7 +194,7 @@ Section Synth.
 
   Let Pt := tabP RR NMAX (leg_upto RR (sin phi) (cos phi) NMAX).
   Let dPt := tabdP RR NMAX (leg_upto RR (sin phi) (cos phi) NMAX).
-  Let St := fun n m => nth m (nth n (map (fun n => map (Smn OpsR n) (seq 0 (S n))) (seq 0 (S NMAX))) []) 0.
+  Let St := fun n m => nth m (nth n (map (fun n => map (Smn OpsR n) (seq 0 (S n))) (seq 0 (S NMAX))) []) (o0 OpsR).
 
   Lemma gchs_spec n m : (m <= n)%nat -> (n <= 12)%nat ->
     gchs OpsR c cd dt (sin lam) (cos lam) St n m =
@@ -209,18 +209,17 @@ Section Synth.
     - cbn [INR]. rewrite Rmult_0_l, sin_0, cos_0. ring.
     - destruct (E3 ltac:(lia)) as [E4 E5]. rewrite E4, E5. ring.
   Qed.
-  Lemma gshc_spec n m : (m <= n)%nat -> (n <= 12)%nat ->
+  Lemma gshc_spec n m : (1 <= m)%nat -> (m <= n)%nat -> (n <= 12)%nat ->
     gshc OpsR c cd dt (sin lam) (cos lam) St n m =
     Smn OpsR n m * (g_t n m * sin (INR m * lam) - h_t n m * cos (INR m * lam)).
   Proof.
-    intros Hm Hn. unfold gshc, gh_g, gh_h, cpm, spm. rewrite multiple_angle_gen. cbn [fst snd].
+    intros H1 Hm Hn. unfold gshc, gh_g, gh_h, cpm, spm. rewrite multiple_angle_gen. cbn [fst snd].
     unfold St. rewrite (stab_ok OpsR NMAX n m) by (unfold NMAX; lia).
     destruct (packing_roundtrip_gen OpsR rows Hwf n m Hm) as [E1 [E2 E3]]. cbn zeta in E1, E2, E3.
     fold c in E1, E3. fold cd in E2, E3. unfold g_t, h_t, advance.
     cbn [oadd osub omul OpsR]. rewrite E1, E2.
-    destruct (Nat.eqb_spec m 0) as [->|Hne].
-    - cbn [INR]. rewrite Rmult_0_l, sin_0, cos_0. ring.
-    - destruct (E3 ltac:(lia)) as [E4 E5]. rewrite E4, E5. ring.
+    destruct (Nat.eqb_spec m 0) as [->|Hne]; [lia|].
+    destruct (E3 H1) as [E4 E5]. rewrite E4, E5. ring.
   Qed.
 
   Lemma Pt_spec n m : (m <= n)%nat -> (n <= 12)%nat -> Smn OpsR n m * Pt n m = Pschmidt n m phi.
@@ -234,14 +233,19 @@ Section Synth.
     apply (proj2 (legendre_matches_spec_12 n m phi Hm Hn)).
   Qed.
 
-  Lemma Xp_spec : Xp OpsR c cd dt (sin lam) (cos lam) ar dPt St = sh_X 12 g_t h_t ar lam phi.
+  Lemma x_p_spec n : (1 <= n <= 12)%nat ->
+    x_p OpsR c cd dt (sin lam) (cos lam) dPt St n =
+    - Rsum (seq 0 (S n)) (fun m => (g_t n m * cos (INR m * lam) + h_t n m * sin (INR m * lam)) * dPschmidt n m phi).
   Proof.
-    unfold Xp, sh_X, NMAX. rewrite fsum_R. rewrite <- Rsum_opp. apply Rsum_ext. intros n Hn. apply in_seq in Hn.
-    unfold arn2, x_p. rewrite opow_R, fsum_R. cbn [omul OpsR].
-    rewrite <- Ropp_mult_distr_r. rewrite <- Rsum_opp. f_equal. apply Rsum_ext. intros m Hm'. apply in_seq in Hm'.
+    intros Hn. unfold x_p. rewrite fsum_R, <- Rsum_opp. apply Rsum_ext. intros m Hm'. apply in_seq in Hm'.
     rewrite gchs_spec by lia. cbn [omul OpsR].
     pose proof (dPt_spec n m ltac:(lia) ltac:(lia)) as E.
     replace (dPschmidt n m phi) with (- (Smn OpsR n m * dPt n m)) by (rewrite E; ring). ring.
+  Qed.
+  Lemma Xp_spec : Xp OpsR c cd dt (sin lam) (cos lam) ar dPt St = sh_X 12 g_t h_t ar lam phi.
+  Proof.
+    unfold Xp, sh_X, NMAX. rewrite fsum_R, <- Rsum_opp. apply Rsum_ext. intros n Hn. apply in_seq in Hn.
+    unfold arn2. rewrite opow_R, x_p_spec by lia. cbn [omul OpsR]. ring.
   Qed.
   Lemma Zp_spec : Zp OpsR c cd dt (sin lam) (cos lam) ar Pt St = sh_Z 12 g_t h_t ar lam phi.
   Proof.
@@ -259,7 +263,9 @@ Section Synth.
     apply Rsum_ext. intros n Hn. apply in_seq in Hn.
     unfold arn2, y_p. rewrite opow_R, fsum_R. cbn [omul OpsR]. f_equal.
     apply Rsum_ext. intros m Hm'. apply in_seq in Hm'.
-    rewrite gshc_spec by lia. cbn [omul oZ OpsR]. rewrite <- INR_IZR_INZ.
+    cbn [omul oZ OpsR]. rewrite <- INR_IZR_INZ.
+    destruct (Nat.eq_dec m 0) as [->|Hm0]; [cbn [INR]; ring|].
+    rewrite gshc_spec by lia.
     rewrite <- (Pt_spec n m ltac:(lia) ltac:(lia)). ring.
   Qed.
 
